@@ -52,10 +52,14 @@ def subcritical_T(backend_name, r, margin=0.02):
     return round(lo + span * (margin + (1 - 2 * margin) * r.random()), 3)
 
 
+# shipped records whose stored molar mass differs from the backend's (by 35 % and 2e-4): whichever of the two a conversion uses shows
+STORED_VS_BACKEND_CONTEXTS = [("difluoromethane", 250.0), ("fluorine", 85.0)]
+
+
 def contexts(tier, seed, n_quick=5):
     """(adsorbate name, temperature K) pairs."""
     r = rng(seed, "ctx")
-    out = list(FIXED_CONTEXTS[:n_quick])
+    out = list(FIXED_CONTEXTS[:n_quick]) + list(STORED_VS_BACKEND_CONTEXTS)
     ads = backend_adsorbates()
     if tier == "quick":
         for _ in range(2):
